@@ -4,6 +4,7 @@ package sx
 // functions for symbolic operands.
 
 import (
+	"math/big"
 	"go/types"
 	"strings"
 	"sync"
@@ -42,7 +43,7 @@ const byteRe = `(re.* (re.range "\u{0}" "\u{ff}"))`
 func (i *interpreter) nondetString(name string) *Sym {
 	p := i.path
 	s := p.input(name, SStr)
-	p.pc = append(p.pc, "(str.in_re "+s.e+" "+byteRe+")")
+	p.lazy = append(p.lazy, "(str.in_re "+s.e+" "+byteRe+")")
 	return s
 }
 
@@ -193,6 +194,89 @@ func init() {
 	verifAPI["verifAnd"] = func(fr *frame, args []value) value { return mkAnd(args[0], args[1]) }
 	verifAPI["verifImplies"] = func(fr *frame, args []value) value { return mkImplies(args[0], args[1]) }
 	verifAPI["verifNot"] = func(fr *frame, args []value) value { return mkNot(args[0]) }
+	verifAPI["verifAssumeClass"] = func(fr *frame, args []value) value {
+		i := fr.i
+		p := i.path
+		class := cstr(args[1], "class")
+		switch s := args[0].(type) {
+		case string:
+			if !stringInClass(s, class) {
+				panic(pathEnd{reason: "assume"})
+			}
+		case *Sym:
+			switch class {
+			case "asciiws":
+				p.pc = append(p.pc, "(str.in_re "+s.e+" (re.* (re.union (re.range \"\\u{9}\" \"\\u{d}\") (str.to_re \" \"))))")
+			case "trimmed":
+				first := "(str.to_code (str.at " + s.e + " 0))"
+				last := "(str.to_code (str.at " + s.e + " (- (str.len " + s.e + ") 1)))"
+				notIn := func(t string, set [][2]int) string {
+					var cs []string
+					for _, r := range set {
+						if r[0] == r[1] {
+							cs = append(cs, "(not (= "+t+" "+smtInt(int64(r[0]))+"))")
+						} else {
+							cs = append(cs, "(not (and (<= "+smtInt(int64(r[0]))+" "+t+") (<= "+t+" "+smtInt(int64(r[1]))+")))")
+						}
+					}
+					return "(and " + strings.Join(cs, " ") + ")"
+				}
+				p.pc = append(p.pc, "(or (= (str.len "+s.e+") 0) (and "+notIn(first, trimFirstExcl)+" "+notIn(last, trimLastExcl)+"))")
+			case "nocrend":
+				p.pc = append(p.pc, "(not (str.suffixof \"\\u{d}\" "+s.e+"))")
+				p.facts["noend|"+s.e+"|\r"] = true
+			default:
+				unsup("unknown string class %q", class)
+			}
+			p.facts["class|"+class+"|"+s.e] = true
+		}
+		return nil
+	}
+	verifAPI["verifAssumeAlphabet"] = func(fr *frame, args []value) value {
+		// ranges: pairs of bytes, e.g. "09af" = [0-9a-f]
+		i := fr.i
+		p := i.path
+		ranges := cstr(args[1], "alphabet ranges")
+		var allowed [256]bool
+		var parts []string
+		for k := 0; k+1 < len(ranges); k += 2 {
+			for b := int(ranges[k]); b <= int(ranges[k+1]); b++ {
+				allowed[b] = true
+			}
+			parts = append(parts, "(re.range "+smtStr(ranges[k:k+1])+" "+smtStr(ranges[k+1:k+2])+")")
+		}
+		switch s := args[0].(type) {
+		case string:
+			for k := 0; k < len(s); k++ {
+				if !allowed[s[k]] {
+					panic(pathEnd{reason: "assume"})
+				}
+			}
+		case *Sym:
+			re := parts[0]
+			if len(parts) > 1 {
+				re = "(re.union " + strings.Join(parts, " ") + ")"
+			}
+			p.lazy = append(p.lazy, "(str.in_re "+s.e+" (re.* "+re+"))")
+			p.setAlpha(s.e, &allowed)
+		}
+		return nil
+	}
+	verifAPI["verifDecimalValue"] = func(fr *frame, args []value) value {
+		// mathematical value of a digit string (no wrap): harness-side oracle
+		switch s := args[0].(type) {
+		case string:
+			v, _ := new(big.Int).SetString(s, 10)
+			if v == nil || !v.IsInt64() {
+				unsup("verifDecimalValue out of range")
+			}
+			return v.Int64()
+		case *Sym:
+			return &Sym{sort: SInt, e: "(str.to_int " + s.e + ")", lo: bi(-1)}
+		}
+		return int64(0)
+	}
+	verifAPI["verifNow"] = func(fr *frame, args []value) value { return intrinsics["time.Now"](fr, nil) }
 	verifAPI["verifEvent"] = func(fr *frame, args []value) value {
 		fr.i.path.events = append(fr.i.path.events, cstr(args[0], "event"))
 		return nil
@@ -203,7 +287,11 @@ func init() {
 // still feasible (no forking: the negation is simply not explored).
 func (i *interpreter) branchAssume(c *Sym) bool {
 	p := i.path
-	r := i.solve([]string{c.e}, nil)
+	if c.heavy {
+		p.lazy = append(p.lazy, c.e)
+		return true
+	}
+	r := i.solveFeas([]string{c.e})
 	if r.res == "unsat" {
 		return false
 	}
@@ -230,4 +318,38 @@ func (i *interpreter) hashHex(s value) value {
 		p.pc = append(p.pc, "(str.in_re "+h.e+" ((_ re.loop 64 64) (re.union (re.range \"0\" \"9\") (re.range \"a\" \"f\"))))")
 	}
 	return h
+}
+
+// byte sets excluded at the edges of a "trimmed" string: ASCII white space and
+// every byte that can start (first) or end (last) the UTF-8 encoding of a
+// Unicode White_Space rune.
+var (
+	trimFirstExcl = [][2]int{{0x09, 0x0d}, {0x20, 0x20}, {0xc2, 0xc2}, {0xe1, 0xe3}}
+	trimLastExcl  = [][2]int{{0x09, 0x0d}, {0x20, 0x20}, {0x80, 0x8a}, {0x9f, 0xa0}, {0xa8, 0xa9}, {0xaf, 0xaf}}
+)
+
+func inSet(b byte, set [][2]int) bool {
+	for _, r := range set {
+		if int(b) >= r[0] && int(b) <= r[1] {
+			return true
+		}
+	}
+	return false
+}
+
+func stringInClass(s, class string) bool {
+	switch class {
+	case "asciiws":
+		for k := 0; k < len(s); k++ {
+			if !(s[k] >= 9 && s[k] <= 13 || s[k] == ' ') {
+				return false
+			}
+		}
+		return true
+	case "trimmed":
+		return s == "" || (!inSet(s[0], trimFirstExcl) && !inSet(s[len(s)-1], trimLastExcl))
+	case "nocrend":
+		return !strings.HasSuffix(s, "\r")
+	}
+	return false
 }
